@@ -518,6 +518,18 @@ func c03CatPair(thorough bool) *c03Cat {
 		cat.add("P/"+k+"/in-join", "nested:join in IN", c3sel(c3star(), relm.In{E: c3c("c"), Q: c3sel(c3f("y.b"), nil,
 			c3join(k, c3refAs("t1", "y"), c3refAs("t2", "z"), c3eq(c3c("y.a"), c3c("z.a"))))}, t2))
 	}
+	// a derived table / CTE that exports two columns under one name: a reference to that name, qualified or not, matches
+	// two columns and has to be refused; the other columns stay usable
+	for _, k := range []string{"INNER", "LEFT", "FULL"} {
+		j := c3join(k, t1, t2, c3eq(c3c("t1.a"), c3c("t2.a")))
+		dup := c3sel(c3f("t1.a", "t2.a", "t1.b", "t2.c"), nil, j)
+		cat.add("P/"+k+"/dup-names/qualified", "ambiguity:derived", c3sel(c3f("s.a"), nil, c3sub(dup, "s")))
+		cat.add("P/"+k+"/dup-names/unqualified", "ambiguity:derived", c3sel(c3f("a"), nil, c3sub(dup, "s")))
+		cat.add("P/"+k+"/dup-names/where-qualified", "ambiguity:derived", c3sel(c3f("s.b"), relm.IsNull{E: c3c("s.a")}, c3sub(dup, "s")))
+		cat.add("P/"+k+"/dup-names/other-columns", "ambiguity:derived", c3sel(c3f("s.b", "c"), relm.IsNull{E: c3c("s.c"), Neg: true}, c3sub(dup, "s")))
+		cat.add("P/"+k+"/dup-names/cte-qualified", "ambiguity:cte", c3with(c3sel(c3f("d.a"), nil, c3ref("d")), &relm.CTE{Name: "d", Q: dup}))
+		cat.add("P/"+k+"/dup-names/join-condition", "ambiguity:derived", c3sel(c3f("z.c"), nil, c3join("INNER", c3sub(dup, "s"), c3refAs("t2", "z"), c3eq(c3c("s.a"), c3c("z.a")))))
+	}
 	cat.add("P/scalar-in-select", "nested:scalar subquery", c3sel(c3f("a", c3as(relm.Scalar{Q: c3sel(c3f("c"), c3eq(c3c("t2.a"), c3c("t1.a")), t2)}, "m")), nil, t1))
 	return cat
 }
@@ -879,7 +891,10 @@ func (r *c03Runner) runWorld(family string, cat *c03Cat, w *c03World, mode c03Mo
 				// the manual demands at most one record, but csvq does not evaluate the subquery when the other operand of the
 				// comparison is NULL; not evaluating an operand is a reasonable reading, so this is only counted
 				c.Add("subquery_error_avoided_by_lazy_evaluation", 1)
-			} else if kind == "fieldcount" {
+			} else if kind == "ambiguous" && strings.HasPrefix(q.Class, "ambiguity:") && len(got.rows) == 0 {
+				// no row came out, so csvq may never have had to resolve the reference (it resolves while evaluating a record)
+				c.Add("ambiguous_reference_never_evaluated", 1)
+			} else if kind == "fieldcount" || (kind == "ambiguous" && strings.HasPrefix(q.Class, "ambiguity:")) {
 				c.Violate("no-error:"+kind+":"+q.Class, fmt.Sprintf("csvq returns %s where the manual demands an error (%v)\n  %s", relm.RowsText(got.rows), want.err, describe(q)), payload(q))
 			} else {
 				c.Add("outside_fragment", 1)
